@@ -198,8 +198,8 @@ def h_image(container: int, tail: int, what: int, fmt: int) -> int:
             elif container == 2:
                 other = put("img.mdx", _wrap_mdx(img))
             elif container == 3:
-                put("data.bin", img)
-                other = put("c.cue", b'FILE "data.bin" BINARY\r\n  TRACK 01 MODE1/2048\r\n    INDEX 01 00:00:00\r\n')
+                put("data file (1).bin", img)                 # a data file name with blanks and brackets
+                other = put("c.cue", b'FILE "data file (1).bin" BINARY\r\n  TRACK 01 MODE1/2048\r\n    INDEX 01 00:00:00\r\n')
             else:
                 put("data2.bin", _wrap2352(img))
                 other = put("c2.cue", b'file "data2.bin" binary\n  track 01 mode1/2352\n    index 01 00:00:00\n')
